@@ -135,7 +135,8 @@ class Manifest:
 
         _key_sort = operator.itemgetter(0)
 
-        excludes = frozenset(["CVS", ".svn", "Manifest"])
+        # .update.Manifest: AtomicWriteFile's temp file, left behind by a killed run
+        excludes = frozenset(["CVS", ".svn", "Manifest", ".update.Manifest"])
         aux, ebuild, misc = {}, {}, {}
         if not self.thin:
             filesdir = "/files/"
